@@ -1046,6 +1046,31 @@ def model(ctx):
     return recs
 
 
+SUITE_FILES = ['tests/test_mesh.py', 'tests/test_examples.py', 'tests/test_assembly.py', 'tests/test_basis.py']
+
+
+def from_suite(ctx):
+    """thorough tier: the repository's own tests as drivers (harness/suite_io.py records the surgery operations they
+    perform on small first-order meshes with exact coordinates); judged by the same Op clauses."""
+    from .. import suite
+    rec = suite.record(ctx, files=SUITE_FILES, plugins=['harness.suite_io'])
+    evs = rec.get('c18', [])
+    scs = [{'id': f'C18-suite-{k}', 'recipe': {'driver': 'suite', 'test': e.get('test', '')},
+            'tags': {'family': 'suite'}, 'events': [e]} for k, e in enumerate(evs)]
+    ctx.validate('TraceC18', scs, jvms=8)
+    ops = {}
+    for e in evs:
+        ops[e['op']] = ops.get(e['op'], 0) + 1
+    skipped = {}
+    for d in rec.get('io_skipped', []):
+        for k, v in d.items():
+            if k.startswith('c18:'):
+                skipped[k] = skipped.get(k, 0) + v
+    ctx.notes['scenarios_from_repository_tests'] = len(scs)
+    ctx.notes['suite_events_by_operation'] = ops
+    ctx.notes['suite_skipped'] = skipped
+
+
 def _machinery_guard(ctx):
     """an event TraceC18 cannot read is a defect of the harness (exit 2), never a verdict on the library."""
     for f in ctx.failures:
@@ -1060,6 +1085,8 @@ def run(ctx):
     recs += generate(ctx.tier, ctx.seed)
     scs = [scenario(f'C18-{k}', r) for k, r in enumerate(recs)]
     ctx.validate('TraceC18', scs, jvms=8)
+    if ctx.tier == 'thorough':
+        from_suite(ctx)
     _machinery_guard(ctx)
     keys = {json.dumps(r, sort_keys=True) for r in recs
             if np.array(r['mesh']['t']).ndim == 2 and np.array(r['mesh']['t']).shape[1] >= 2}
@@ -1087,6 +1114,11 @@ def replay(ctx, doc):
     sc = doc['scenario']
     if sc.get('recipe', {}).get('driver') == 'model':
         ctx.model_must_hold('MC_C18', sc['recipe']['cfg'], env={'TIER': ctx.tier}, timeout=1500)
+        return ctx.finish(rule=RULE)
+    if sc.get('recipe', {}).get('driver') == 'suite':
+        # recorded from the repository's tests: the recorded event is re-validated
+        ctx.validate('TraceC18', [sc], jvms=8)
+        _machinery_guard(ctx)
         return ctx.finish(rule=RULE)
     sc2 = scenario(sc['id'], sc['recipe'])
     ctx.validate('TraceC18', [sc2], jvms=8)
